@@ -276,7 +276,16 @@ func c04JoinAccept(c *core.Ctx, r *core.RNG, key [16]byte, major byte) {
 	mhdr := byte(1<<5) | major&3
 	reqType := []byte{0xff, 0, 1, 2}[r.Intn(4)]
 	if r.Chance(1, 10) {
-		reqType = r.Byte()
+		// any other type byte is outside the property ("all four join-request types"): what the library does
+		// with it - refuse it, or fold it into the MIC - is its own business, as long as it does not panic
+		phyX := lorawan.PHYPayload{MHDR: lorawan.MHDR{MType: lorawan.JoinAccept, Major: lorawan.Major(major)}, MACPayload: cloneJoinAccept(ja)}
+		tb := r.Byte()
+		c.Eval(1)
+		if p, msg := core.Guard(func() {
+			_ = phyX.SetDownlinkJoinMIC(lorawan.JoinType(tb), lorawan.EUI64(eui(r)), lorawan.DevNonce(r.U32Edge()), lorawan.AES128Key(key))
+		}); p {
+			c.Violate("C04|joinaccept|undefined-type-panic", "SetDownlinkJoinMIC with join-request type %#x: %s", tb, msg)
+		}
 	}
 	jEUI := eui(r)
 	devNonce := uint16(r.U32Edge())
@@ -318,7 +327,15 @@ func c04JoinAccept(c *core.Ctx, r *core.RNG, key [16]byte, major byte) {
 		do   func(p *jp)
 	}{
 		{"none", func(p *jp) {}},
-		{"reqtype", func(p *jp) { p.reqType ^= byte(1 + r.Intn(255)) }},
+		{"reqtype", func(p *jp) { // another of the four defined types
+			others := []byte{}
+			for _, t := range []byte{0xff, 0, 1, 2} {
+				if t != p.reqType {
+					others = append(others, t)
+				}
+			}
+			p.reqType = others[r.Intn(len(others))]
+		}},
 		{"joineui-bit", func(p *jp) { flipBit(p.jEUI[:], r) }},
 		{"devnonce-bit", func(p *jp) { p.devNonce ^= 1 << uint(r.Intn(16)) }},
 		{"devnonce-byteswap", func(p *jp) { p.devNonce = p.devNonce<<8 | p.devNonce>>8 }},
